@@ -38,21 +38,47 @@ def findings():
     out.append(dict(flag="gmres_square_H", present=present, witness="gmres(Dense([[1,2],[3,4]]), b=[1,0], max_iters=1, tol=1e-7)", got=got,
                     expected="x=[0.1, 0], residual 0.9487",
                     what="gmres drops the last row of the Arnoldi Hessenberg matrix and solves with the square H (Galerkin/FOM iterate): a truncated run does not minimise the residual over x0+K_m and can exceed the initial residual (residual 3 vs ||r0||=1 on the witness)"))
-    # padding for max_iters > n: harmless for gmres as long as the padded rows are masked; present = the mask fails
-    A3 = np.array([[2.0, 1.0, 0.0], [0.0, 2.0, 1.0], [1.0, 0.0, 2.0]])
-    b3 = np.array([1.0, 0.0, 0.0])
-    try:
-        x, _ = gmres(Dense(A3), b3, max_iters=5, tol=1e-7)
-        res = float(np.linalg.norm(b3 - A3 @ np.asarray(x)))
-        Q, H, _ = arnoldi(Dense(A3), b3, max_iters=5, tol=1e-7)
-        padded = bool(np.all(np.asarray(Q.to_dense())[:, 3:] == 0))
-        present = bool(not np.isfinite(res) or res > 1e-9)
-        got = "gmres residual %.3g with max_iters=5 > n=3; arnoldi returns Q of shape %s with zero columns beyond n: %s" % (res, tuple(Q.to_dense().shape), padded)
-    except Exception as e:  # noqa
-        present, got = True, "raised %s: %s" % (type(e).__name__, e)
-    out.append(dict(flag="arnoldi_padding", present=present, witness="gmres(Dense([[2,1,0],[0,2,1],[1,0,2]]), b=[1,0,0], max_iters=5)", got=got,
-                    expected="residual ~ 1e-16",
-                    what="for max_iters > n the Arnoldi buffers are padded with zero rows/columns; gmres must mask them (present = the mask fails and the padded run no longer solves the system)"))
+    # max_iters > n: padded buffers, masked by the row maxima of the square H
+    s3 = np.sqrt(3.0)
+    T3 = np.array([[2.0, 1.0, 0.0], [1.0, 3.0, 1.0], [0.0, 1.0, 4.0]])
+    bm = np.array([1.0, 1.0 - s3, 2.0 - s3])      # eigenvector of T3 for 3 - sqrt(3)
+    bp = np.array([1.0, 1.0 + s3, 2.0 + s3])      # eigenvector of T3 for 3 + sqrt(3)
+    hits = []
+    for (Aw, bw, mw, tw, name) in [(T3, bm, 4, 1e-7, "gmres(Dense([[2,1,0],[1,3,1],[0,1,4]]), b=[1,1-sqrt3,2-sqrt3], max_iters=4, tol=1e-7)"),
+                                   (T3, bm, 100, 1e-7, "same system with the default max_iters=100"),
+                                   (np.eye(3) + 1e-5 * np.array([[0, 1, 1], [.5, 0, 1], [.5, .5, 0]]), np.array([1.0, 2.0, 3.0]), 4, 1e-7,
+                                    "gmres(Dense(I + 1e-5*[[0,1,1],[.5,0,1],[.5,.5,0]]), b=[1,2,3], max_iters=4, tol=1e-7)")]:
+        try:
+            x, _ = gmres(Dense(Aw), bw, max_iters=mw, tol=tw)
+            r = float(np.linalg.norm(bw - Aw @ np.asarray(x)) / np.linalg.norm(bw))
+            if not np.isfinite(r) or r > 1e-8:
+                hits.append("%s: relative residual %.3g" % (name, r))
+        except Exception as e:  # noqa
+            hits.append("%s: raised %s" % (name, type(e).__name__))
+    out.append(dict(flag="arnoldi_padding", present=bool(hits), witness="gmres(Dense([[2,1,0],[1,3,1],[0,1,4]]), b=[1,1-sqrt(3),2-sqrt(3)], max_iters=4, tol=1e-7)",
+                    got="; ".join(hits) or "all padded runs solved their systems", expected="x = b/(3-sqrt(3)), residual ~ 1e-16",
+                    what="for max_iters > n the Arnoldi buffers are padded with zeros and gmres masks the padded part by the row maxima of the square H: when the n-th "
+                         "sub-diagonal entry is not negligible (inexact breakdown, loss of orthogonality) the padded normal equations are singular and gmres raises LinAlgError (also with the default max_iters=100)"))
+    # inexact early breakdown: the stopping test compares the new norm with tol*H[1,0], i.e. with itself after the first step
+    hits = []
+    for (Aw, bw, mw, tw, name) in [(T3, bp, 3, 1e-10, "gmres(Dense([[2,1,0],[1,3,1],[0,1,4]]), b=[1,1+sqrt3,2+sqrt3], max_iters=3, tol=1e-10)"),
+                                   (T3, bp, 3, 1e-9, "same, tol=1e-9"), (T3, 7 * bm, 3, 1e-9, "b=7*[1,1-sqrt3,2-sqrt3], max_iters=3, tol=1e-9"),
+                                   (T3, 7 * bm, 3, 1e-10, "b=7*[1,1-sqrt3,2-sqrt3], max_iters=3, tol=1e-10"),
+                                   (np.array([[0.0, 2.0, 0.0], [1.0, 0.0, 0.0], [0.0, 0.0, 3.0]]), np.array([np.sqrt(2.0), 1.0, 0.0]), 3, 1e-10,
+                                    "gmres(Dense([[0,2,0],[1,0,0],[0,0,3]]), b=[sqrt2,1,0], max_iters=3, tol=1e-10)")]:
+        try:
+            x1, _ = gmres(Dense(Aw), bw, max_iters=1, tol=tw)
+            r1 = float(np.linalg.norm(bw - Aw @ np.asarray(x1)) / np.linalg.norm(bw))
+            x, _ = gmres(Dense(Aw), bw, max_iters=mw, tol=tw)
+            r = float(np.linalg.norm(bw - Aw @ np.asarray(x)) / np.linalg.norm(bw))
+            if r1 <= 1e-12 and (not np.isfinite(r) or r > 1e-8):
+                hits.append("%s: relative residual %.3g (%.1g with max_iters=1)" % (name, r, r1))
+        except Exception as e:  # noqa
+            hits.append("%s: raised %s" % (name, type(e).__name__))
+    out.append(dict(flag="arnoldi_breakdown_continues", present=bool(hits), witness="gmres(Dense([[2,1,0],[1,3,1],[0,1,4]]), b=[1,1+sqrt(3),2+sqrt(3)] (an eigenvector), max_iters=3, tol=1e-10)",
+                    got="; ".join(hits) or "residuals stay at rounding level after an early breakdown", expected="relative residual ~ 1e-16 for every max_iters >= 1",
+                    what="after an inexact early breakdown (eigenvector right-hand side) the Arnoldi loop does not stop (its test compares the new norm with tol*H[1,0], which is that norm itself) "
+                         "and continues with noise divided by tol/2; the Arnoldi relation is lost and the residual of gmres grows from 1e-16 (max_iters=1) to 1e-6..1e-3 (max_iters>=3, tol<=1e-9), or the solve is singular"))
     return out
 
 
@@ -148,8 +174,17 @@ def run(ctx):
             cases.append(dict(s, **r, m=m, tol=tol, stream="eigvec_rhs"))
     obs = [G.run_impl(c) for c in cases]
     stab = [G.stability(c, square_H=sq) for c in cases]
-    stable = [i for i, (o, st) in enumerate(zip(obs, stab)) if o.get("ok") and st["same_steps"] and st["dev_x"] <= 1e-12 and st["min_margin"] >= 1e-5]
-    near = [i for i, (o, st) in enumerate(zip(obs, stab)) if o.get("ok") and st["same_steps"] and st["dev_x"] <= 1e-12 and st["min_margin"] < 1e-5]
+    # the model transcribes the pinned tree's stopping test and padding: once a probe says one of those defects is gone,
+    # its region is left to the oracle alone
+    def modelled(c):
+        if not flags.get("arnoldi_padding", True) and c["m"] > c["n"]:
+            return False
+        if not flags.get("arnoldi_breakdown_continues", True) and any(G.overrun_columns(c)):
+            return False
+        return True
+    good = [o.get("ok") and st["same_steps"] and st["dev_x"] <= 1e-12 and modelled(c) for c, o, st in zip(cases, obs, stab)]
+    stable = [i for i, st in enumerate(stab) if good[i] and st["min_margin"] >= 1e-5]
+    near = [i for i, st in enumerate(stab) if good[i] and st["min_margin"] < 1e-5]
     items = [(cases[i], obs[i]) for i in stable]
     mism = []
     failing, err = G.eval_in_coq("c13", items, sq)
@@ -157,11 +192,13 @@ def run(ctx):
         mism.append(dict(oracle_fail=False, harness_error=err))
         failing = []
     failset = {stable[i] for i in failing}
-    minres_checked = exhausted = 0
+    minres_checked = exhausted = attributed = early = 0
     for i, (c, o) in enumerate(zip(cases, obs)):
         bad, info = G.oracle(c, o, flags)
         minres_checked += info.get("minres_checked", 0)
         exhausted += info.get("exhausted", 0)
+        attributed += info.get("attributed_exception", 0)
+        early += info.get("early_breakdown", 0)
         if bad or i in failset:
             mism.append(dict(oracle_fail=bool(bad), case=describe(c, o), failed_clauses=bad, model_disagrees=(i in failset)))
             dump_case(c, o)
@@ -180,6 +217,8 @@ def run(ctx):
         bad, info = G.oracle(c, o, flags)
         minres_checked += info.get("minres_checked", 0)
         exhausted += info.get("exhausted", 0)
+        attributed += info.get("attributed_exception", 0)
+        early += info.get("early_breakdown", 0)
         large += 1
         cases.append(c)
         obs.append(o)
@@ -228,6 +267,7 @@ def run(ctx):
         extra=dict(compared_in_coq=len(items), near_tie=len(near), skipped_unstable=len(cases) - large - len(items) - len(near),
                    minres_clauses_checked=minres_checked, krylov_space_exhausted_columns=exhausted, large_oracle_only=large,
                    monotonicity_pairs=mono, inv_entry_point=invpath, impl_exceptions=sum(1 for o in obs if not o.get("ok")),
+                   exceptions_attributed_to_flags=attributed, early_breakdown_cases=early,
                    m_lt_n=sum(1 for c in cases if c["m"] < c["n"]), m_eq_n=sum(1 for c in cases if c["m"] == c["n"]), m_gt_n=sum(1 for c in cases if c["m"] > c["n"]),
                    kind_histogram=hist("kind"), rhs_histogram=hist("rhs"), x0_histogram=hist("x0kind"), columns_histogram=hist("nc"),
                    complex_cases=sum(1 for c in cases if c["cplx"]), stream_histogram=hist("stream"), flags_used_by_model=flags))
